@@ -332,7 +332,7 @@ def check_protocol(repo: Repo, rep: Report, h: Harness, jp: JavaProtocol) -> Non
                 out[len(out)] = m.group(2)
         return out
 
-    model = {0: 4, 1: True, 2: False, 3: 0, 4: True}
+    model = {0: -2, 1: True, 2: False, 3: 10, 4: True}  # a negative and a two-digit integer, both truth values
     jval = lambda v: ("true" if v else "false") if isinstance(v, bool) else str(v)  # noqa: E731
 
     # ---- answer-finder mode ------------------------------------------------------------------
@@ -365,11 +365,11 @@ def check_protocol(repo: Repo, rep: Report, h: Harness, jp: JavaProtocol) -> Non
                             f"description sent is {descs[0] if descs else None!r}; expected declarations then constraints: {exp_desc!r}")
             else:
                 rep.ok("SGR-5", f"{cls}.solve sends every declaration then every constraint, one per line")
-            if r is True and sols == [4, True, False, 0, True] and all(type(s) is type(m) for s, m in zip(sols, model.values())):
+            if r is True and sols == [-2, True, False, 10, True] and all(type(s) is type(m) for s, m in zip(sols, model.values())):
                 rep.ok("SGR-3", f"{cls}.solve: SAT reply built from the Java templates is read back into all four variables with bool/int types")
             else:
                 rep.finding("SGR-3", SUGAR, "SugarLikeBackend.solve", "answer-mode reply parsing",
-                            f"reply {reply_sat(descs[0]) if descs else ''!r} gives result {r!r} and sol {sols!r}; expected True and [4, True, False, 0, True]")
+                            f"reply {reply_sat(descs[0]) if descs else ''!r} gives result {r!r} and sol {sols!r}; expected True and [-2, True, False, 10, True]")
             vs, b = fresh(cls)
             h.reply = a_unsat + "\n"
             r = h.cw.method(b, "solve")()
@@ -390,7 +390,7 @@ def check_protocol(repo: Repo, rep: Report, h: Harness, jp: JavaProtocol) -> Non
             c1 = h.tree("b", "OR", [vs[1], vs[2]])
             h.cw.method(b, "add_constraint")([c1])
             keys = [True, False, True, True, True]
-            decided = {0: 4, 2: False, 4: True}  # variable 3 is a key but undecided
+            decided = {0: -2, 2: False, 4: True}  # variable 3 is a key but undecided; a negative integer fact
             descs = []
 
             def reply_ded(desc: str) -> str:
@@ -419,11 +419,11 @@ def check_protocol(repo: Repo, rep: Report, h: Harness, jp: JavaProtocol) -> Non
                             f"description before the key line is {body!r}, expected {exp_body!r}")
             else:
                 rep.ok("SGR-5", f"{cls}.solve_irrefutably sends declarations, constraints, then the key line")
-            if r is True and sols == [4, None, False, None, True] and type(sols[0]) is int and sols[2] is False and sols[4] is True:
+            if r is True and sols == [-2, None, False, None, True] and type(sols[0]) is int and sols[2] is False and sols[4] is True:
                 rep.ok("SGR-3", f"{cls}.solve_irrefutably: decided keys typed and stored, undecided/non-key variables are None")
             else:
                 rep.finding("SGR-3", SUGAR, "SugarLikeBackend.solve_irrefutably", "deduction-mode reply parsing",
-                            f"reply {reply_ded(descs[0]) if descs else ''!r} gives result {r!r}, sol {sols!r}; expected True and [4, None, False, None, True]")
+                            f"reply {reply_ded(descs[0]) if descs else ''!r} gives result {r!r}, sol {sols!r}; expected True and [-2, None, False, None, True]")
             # sat with no decided fact at all
             vs, b = fresh(cls)
             h.reply = d_sat + "\n"
